@@ -155,7 +155,9 @@ def run(chk):
     # grouping state survives: either the cache field is copied kind-correctly or the table is re-grouped
     regroup = any(dotted(c.func) == "group_by" for c in calls_in(cf))
     copy_pb = any(isinstance(s, ast.Assign) and norm(s.targets[0]).endswith("_cache.partition_by") for s in ast.walk(cf))
-    chk.ob("R5", vb, cf, "collect re-establishes the grouping state", regroup or copy_pb, "the grouping state is lost by collect()")
+    # (copying the cache field alone is not enough: the compilers take the grouping from GroupBy nodes of the AST)
+    chk.ob("R5", vb, cf, "collect re-establishes the grouping state with a group_by on the new table", regroup,
+           "collect() does not re-group the collected table (copying `_cache.partition_by` leaves the AST ungrouped: a later summarize aggregates the whole table)" if copy_pb else "the grouping state is lost by collect()")  # fmt: skip
     n = kinds.scan_kinds(chk, "R5", ["pipe.verbs", "pipe.cache", "pipe.table"], sym)
     chk.floor("R5", "kind-checked stores / calls", n, 20)
 
